@@ -177,7 +177,7 @@ def descriptor(kind: str) -> NodeV:
     T written schema-qualified (S9.T) or fully qualified (D9.S9.T)."""
     base, _, level = kind.partition(" @")
     d = descriptors()[base]
-    if not level:
+    if not level or level == "db_path":  # "@db_path": the same statement on an instance that keeps its databases in files
         return d
     seen: set[int] = set()
 
@@ -281,7 +281,7 @@ def R():
     return roles(_PROG if _PROG is not None else Program())
 
 
-def make_session(database_set=None, schema_set=None):
+def make_session(database_set=None, schema_set=None, db_path=False):
     r = R()
     duck = Obj("duck", kind="duck")
     conn = Obj(
@@ -290,7 +290,7 @@ def make_session(database_set=None, schema_set=None):
         schema=Sym("CUR_SCHEMA", typ="str", truthy=True, origin=("upper", ("input", "CUR_SCHEMA")), distinct=True),
         database_set=Const(True) if database_set is None else Const(database_set),
         schema_set=Const(True) if schema_set is None else Const(schema_set),
-        db_path=Const(None), nop_regexes=Const(None),
+        db_path=Sym("DB_PATH", typ="path", truthy=True) if db_path else Const(None), nop_regexes=Const(None),
         variables=Obj("vars", cls=("variables", "Variables"), **{r.variables: Dct()}),
         **{r.paramstyle: Const("pyformat"), r.conn_duck: duck},
     )
@@ -326,7 +326,7 @@ def run_kind(prog: Program, kind: str, mode: str | None, database_set=True, sche
         return h
 
     def run(I: Interp):
-        duck, conn, cur = make_session(database_set, schema_set)
+        duck, conn, cur = make_session(database_set, schema_set, db_path=kind.endswith(" @db_path"))
         stmt = descriptor(kind)
         info = {"transformed": None, "rowcount": None}
         sessions.append((conn, cur, info))
